@@ -57,6 +57,7 @@ def analyze_transactions(transactions):
         'transactions': [],  # Individual transactions for drill-down
         'tags': set(),  # Collect all tags from matching rules
         'raw_descriptions': defaultdict(int),  # Track raw description variations
+        'category_totals': defaultdict(float),  # Money per (category, subcategory) of this merchant
     })
     by_month = defaultdict(float)
 
@@ -92,8 +93,7 @@ def analyze_transactions(transactions):
         # Track by merchant
         by_merchant[txn['merchant']]['count'] += 1
         by_merchant[txn['merchant']]['total'] += effective_amount
-        by_merchant[txn['merchant']]['category'] = txn['category']
-        by_merchant[txn['merchant']]['subcategory'] = txn['subcategory']
+        by_merchant[txn['merchant']]['category_totals'][key] += effective_amount
         by_merchant[txn['merchant']]['months'].add(month_key)
         by_merchant[txn['merchant']]['monthly_amounts'][month_key] += effective_amount
         by_merchant[txn['merchant']]['payments'].append(effective_amount)
@@ -129,6 +129,12 @@ def analyze_transactions(transactions):
     num_months = len(all_months) if all_months else 12
 
     for merchant, data in by_merchant.items():
+        # A merchant whose transactions carry different categories (two rules sharing one
+        # `merchant:` name) is filed under the category most of its money is in - ties go to the
+        # first in name order - and not under whichever transaction happened to come last:
+        # the figures must not depend on the order of the transactions or of the data sources
+        totals = data.pop('category_totals')
+        data['category'], data['subcategory'] = max(sorted(totals), key=lambda k: abs(totals[k]))
         data['months_active'] = len(data['months'])
         data['avg_when_active'] = data['total'] / data['months_active'] if data['months_active'] > 0 else 0
 
